@@ -2,7 +2,10 @@
 # Automatically generated file. DO NOT EDIT.
 # Espressif IoT Development Framework (ESP-IDF)  Project Configuration
 #
-# CONFIG_PREF is not set
-CONFIG_HIDE=y
+CONFIG_PREF=y
+# default:
+# CONFIG_HIDE is not set
 CONFIG_M1=y
-CONFIG_CNT=77
+# CONFIG_M2 is not set
+# CONFIG_M3 is not set
+CONFIG_CNT=7
